@@ -58,6 +58,16 @@ def run(case) -> JoinRun:
             joined, separate = sut(AlignmentResults.resolve, [first, second], case["maxdiff"])
             out.steps.append({"kind": "first+second", "a": first, "b": second, "joined": joined, "separate": separate, "before": before,
                               "fragment": (f.shift, len(f.positions))})
+            # threshold probe: the same two rows at maxDifference just below / at / just above their actual reference gap
+            # (coordinates have one decimal, maxDifference is whole base pairs)
+            gap = max(first.referenceStartPosition, second.referenceStartPosition) - min(first.referenceEndPosition, second.referenceEndPosition)
+            if case.get("probe") and gap > 1:
+                import math
+                for md in sorted({math.floor(gap) - 1, math.floor(gap), math.ceil(gap)}):
+                    before = (snapshot(first), snapshot(second))
+                    joined, separate = sut(AlignmentResults.resolve, [first, second], md)
+                    out.steps.append({"kind": "first+second at the gap threshold", "a": first, "b": second, "joined": joined, "separate": separate,
+                                      "before": before, "fragment": (f.shift, len(f.positions)), "maxdiff": md})
             before = (snapshot(second), snapshot(second))
             joined, separate = sut(AlignmentResults.resolve, [second, second], case["maxdiff"])
             out.steps.append({"kind": "second+itself", "a": second, "b": second, "joined": joined, "separate": separate, "before": before,
@@ -79,11 +89,16 @@ def join_case(draw):
     else:
         gapst = {"real": st.one_of(st.integers(1500, 9000), st.integers(2000, 30000)), "dense": st.integers(400, 3000)}[kind]
         gaps = draw(st.lists(gapst, min_size=n - 1, max_size=n - 1))
-    ref = [draw(st.integers(0, 20000))]
+    # labels ahead of the window: reference label numbers then lie well above the query's (a join guard that mixes
+    # up the two numberings, or compares a number with a count, is invisible while both run 1..40)
+    pre = draw(st.sampled_from([0, 0, 0, 37, 150, 400]))
+    lead = [m * 4100 + (m * 37) % 900 for m in range(pre)]
+    ref = [(lead[-1] + 4100 if lead else 0) + draw(st.integers(0, 20000))]
     for g in gaps:
         ref.append(ref[-1] + g)
+    ref = lead + ref
     k = draw(st.integers(12, min(40, n)))
-    i = draw(st.integers(0, n - k))
+    i = pre + draw(st.integers(0, n - k))
     win = [p - ref[i] for p in ref[i:i + k]]
     s = draw(st.sampled_from([0, 0, 60, 250]))
     q = [p + (draw(st.integers(-s, s)) if s else 0) for p in win]
@@ -121,7 +136,9 @@ def join_case(draw):
     head_first = draw(st.booleans())
     d1, d2 = (true, true - sh) if head_first else (true - sh, true)
     prm = draw(gen_unit.params())
-    return {"ref": ref, "query": q, "qlen": qlen, "rev": rev, "peaks": peaks_around(d1, draw(st.integers(1, 2))),
+    if draw(st.booleans()):        # CMAP coordinates carry one decimal
+        ref = [p + ((p * 7 + 3) % 10) / 10 for p in ref]
+    return {"probe": draw(st.booleans()), "ref": ref, "query": q, "qlen": qlen, "rev": rev, "peaks": peaks_around(d1, draw(st.integers(1, 2))),
             "peaks2": peaks_around(d2, draw(st.integers(1, 2))) + (peaks_around(d1, 1) if draw(st.integers(0, 3)) == 0 else []),
             "params": prm, "maxdiff": draw(st.sampled_from([100000, 100000, 20000, 1000, 0])), "strand2": draw(st.integers(0, 3)) == 0,
             "mode": mode}
